@@ -383,6 +383,71 @@ def param_catalogues(rng, node, desc, near_cap, far_cap):
     return out
 
 
+def _has_cls(tree):
+    if isinstance(tree, dict):
+        return 'cls' in tree or any(_has_cls(v) for v in tree.values())
+    if isinstance(tree, list):
+        return any(_has_cls(v) for v in tree)
+    return False
+
+
+def _dt_class(func):
+    """outcome class of a datatype call, as the model names it"""
+    from frappy.errors import BadValueError
+    try:
+        func()
+        return 'ok'
+    except BadValueError as e:
+        return type(e).__name__
+    except Exception as e:
+        return type(e).__name__
+
+
+def datatype_cases(node, desc, cats, cfgs, generated):
+    """for every described parameter whose datatype is one of the ten SECoP kinds: the datatype of the class, the limits
+    the configuration sets, the datatype object of the instance, the described datainfo and the boundary payloads with the
+    verdicts of the node's own datatype and of the client datatype — for the model (Node/DescribeDT) to derive all of it"""
+    from vlib import dicodec
+    out = []
+    for (mname, aname), (cdt, payloads) in cats.items():
+        modobj = node.secnode.modules[mname]
+        attr = modobj.accessiblename2attr.get(aname)
+        pobj = modobj.parameters.get(attr)
+        try:
+            inst = dicodec.dt_to_di(pobj.datatype)
+        except Exception:
+            continue
+        if _has_cls(inst) or cdt is None:
+            continue
+        mycls, = type(modobj).__bases__
+        cls_p = mycls.accessibles.get(attr)
+        acfg = (cfgs or {}).get(mname, {}).get(attr)
+        cls = cfg = None
+        if generated and cls_p is not None and getattr(cls_p, 'datatype', None) is not None and \
+                (acfg is None or isinstance(acfg, dict)):
+            dtkeys = [k for k in (acfg or {}) if k not in cls_p.propertyDict]
+            if all(k in ('min', 'max') for k in dtkeys):
+                try:
+                    cls = dicodec.dt_to_di(cls_p.datatype)
+                    cfg = [[k, dtcodec.py_to_json(acfg[k])] for k in dtkeys]
+                except Exception:
+                    cls = cfg = None
+                if cls is not None and _has_cls(cls):
+                    cls = cfg = None
+        probes = []
+        for payload in payloads:
+            value = json.loads(json.dumps(payload))
+            if not dtcodec.encodable(value):
+                continue
+            probes.append({'payload': dtcodec.py_to_json(value),
+                           'node': _dt_class(lambda: pobj.datatype.validate(pobj.datatype.import_value(value))),
+                           'client': _dt_class(lambda: cdt.validate(cdt.import_value(value)))})
+        described = json.loads(json.dumps(desc['modules'][mname]['accessibles'][aname]['datainfo']))
+        out.append({'m': mname, 'a': aname, 'cls': cls, 'cfg': cfg or [], 'inst': inst,
+                    'described': dtcodec.py_to_json(described), 'probes': probes})
+    return out
+
+
 def change_client_verdicts(cats, steps, rec):
     """for every `change` aimed at a described parameter: does the datatype a client rebuilds from the described datainfo
     import + validate the payload?  (computed by the real datatype code; judged in Lean against what the node did)"""
@@ -531,7 +596,8 @@ def run_node(rng, node, box, nodespec, classes, cfgs=None, big=False):
     classes = [{'m': mname, 'ic': list(md.get('interface_classes', [])), 'features': list(md.get('features', [])),
                 'impl': md.get('implementation')}
                for mname, md in desc1['modules'].items()]
-    return {'rec': rec, 'generated': nodespec is not None, 'classes': classes, 'report1': rep1, 'report2': report_json(desc2), 'activates': activates,
+    dtcases = datatype_cases(node, desc1, cats, generated_cfgs(nodespec) if nodespec is not None else None, nodespec is not None)
+    return {'rec': rec, 'generated': nodespec is not None, 'dtcases': dtcases, 'classes': classes, 'report1': rep1, 'report2': report_json(desc2), 'activates': activates,
             'dichecks': dichecks, 'imports': imports, 'strict': strict}
 
 
@@ -643,7 +709,9 @@ def to_requests(data):
                  activates=[{'m': a['m'], 'a': a['a'], 'reply': a['reply'], 'subsChanged': a['subsChanged']}
                             for a in data['activates'] if not a['bare']],
                  dichecks=[{'m': d['m'], 'a': d['a'], 'client': d['client'], 'node': d['node']} for d in data['dichecks']],
-                 imports=[{'m': d['m'], 'a': d['a'], 'ok': d['ok']} for d in data['imports']])]
+                 imports=[{'m': d['m'], 'a': d['a'], 'ok': d['ok']} for d in data['imports']]),
+            {'p': PID, 'k': 'datatypes', 'params': [{'cls': c['cls'], 'cfg': c['cfg'], 'inst': c['inst'], 'described': c['described'],
+                                                      'probes': [p['payload'] for p in c['probes']]} for c in data.get('dtcases', [])]}]
 
 
 # module properties a configuration may give (modulebase.py: "only the properties predefined here are allowed to be set in
@@ -841,10 +909,32 @@ def cfg_stats(nodespec):
     return out
 
 
-def evaluate(ctx, res, label, case, data, model, judge):
+def evaluate(ctx, res, label, case, data, model, judge, dtmodel=None):
     rec = data['rec']
-    if 'driver_error' in model or 'driver_error' in judge:
-        raise RuntimeError(f'driver error: {model.get("driver_error")} {judge.get("driver_error")} ({label})')
+    if 'driver_error' in model or 'driver_error' in judge or 'driver_error' in (dtmodel or {}):
+        raise RuntimeError(f'driver error: {model.get("driver_error")} {judge.get("driver_error")} '
+                           f'{(dtmodel or {}).get("driver_error")} ({label})')
+    # datatype correspondence: class + configured limits -> instance datatype -> described datainfo -> verdicts on the
+    # boundary payloads (node's own datatype, client datatype rebuilt from the described datainfo), all derived by the model
+    if ctx.model_ok and dtmodel is not None:
+        for c, m in zip(data.get('dtcases', []), dtmodel['params']):
+            res.count('datatype-correspondence.params')
+            res.count('datatype-correspondence.probes', len(c['probes']))
+            res.count('datatype-correspondence.instance-derived' if c['cls'] is not None else 'datatype-correspondence.instance-as-data')
+            where = '%s:%s' % (c['m'], c['a'])
+            if c['cls'] is not None and m['inst'] != c['inst']:
+                res.disagreements.append({'case': case, 'model': {'instance datatype': m['inst'], 'at': where},
+                                          'impl': {'instance datatype': c['inst'], 'class': c['cls'], 'cfg': c['cfg']}})
+            elif not isinstance(m['datainfo'], dict) or dtcodec.canon(m['datainfo']) != dtcodec.canon(c['described']):
+                res.disagreements.append({'case': case, 'model': {'datainfo': m['datainfo'], 'at': where},
+                                          'impl': {'datainfo': c['described'], 'datatype': c['inst']}})
+            else:
+                for pr, got in zip(c['probes'], m['probes']):
+                    if got != [pr['node'], pr['client']]:
+                        res.disagreements.append({'case': case, 'model': {'node / client verdict': got, 'at': where},
+                                                  'impl': {'node / client verdict': [pr['node'], pr['client']],
+                                                           'payload': pr['payload'], 'datatype': c['inst']}})
+                        break
     exch = model
     # exchange correspondence: the model's reply / driver calls / emitted messages / cache for every request of the sweep
     if ctx.model_ok and data.get('generated'):
@@ -965,7 +1055,7 @@ def run(ctx):
         for i in range(0, len(reqs), 40):
             answers += ctx.driver.batch(reqs[i:i + 40])
         for j, (label, case, data) in enumerate(items):
-            evaluate(ctx, res, label, case, data, answers[2 * j], answers[2 * j + 1])
+            evaluate(ctx, res, label, case, data, answers[3 * j], answers[3 * j + 1], answers[3 * j + 2])
 
     # phase 1: generated nodes (fake drivers).  phase 2: the shipped configurations, whose drivers are REAL code: they are
     # probed only with requests the node must refuse before any driver is involved, and only when phase 1 found the tree
@@ -1006,7 +1096,7 @@ def replay(ctx, rp):
     print('model report equal:', same)
     print('judge:', a[1])
     res = Result()
-    evaluate(ctx, res, 'replay', case, data, a[0], a[1])
+    evaluate(ctx, res, 'replay', case, data, a[0], a[1], a[2])
     for d in res.disagreements:
         print('model and implementation disagree:', json.dumps(d, default=str)[:600])
         same = False
